@@ -275,10 +275,15 @@ def run_case(case):
             vals.append(at.value(t, 'cl' if (j == 0 and target['kind'] == 'expr') else lt))
         for a in range(1, len(kinds) + 1):
             at.get(a)
+        atext = [at.text(a) for a in range(1, len(kinds) + 1)]
         res, units = measured(sd, at.names, lambda: invoke(target, vals))
-        return res, units, [at.text(a) for a in range(1, len(kinds) + 1)]
+        after = [project(v, at.names) for v in vals]
+        # the same call once more with the very same argument objects
+        res2, units2 = measured(sd, at.names, lambda: invoke(target, vals))
+        after2 = [project(v, at.names) for v in vals]
+        return res, units, atext, after, (res2, units2, after2)
 
-    res, units, atext = in_build(expanded)
+    res, units, atext, after, (res2, units2, after2) = in_build(expanded)
     combos = []
     for lf in leaves(case['exp']):
         if lf['c'] not in combos:
@@ -338,7 +343,8 @@ def run_case(case):
           'margs': [({'p': m + 1, 'd': ''} if m < nargs else {'p': 0, 'd': target['dfl'][m] or '?'})
                     for m in target.get('margs', [])]}
     return {'id': case['id'], 'args': case['args'], 'kinds': kinds, 'target': tg,
-            'ev': [{'res': res, 'n': len(units), 'units': units, 'tab': tab, 'atext': atext}]}
+            'ev': [{'res': res, 'n': len(units), 'units': units, 'tab': tab, 'atext': atext, 'after': after},
+                   {'res': res2, 'n': len(units2), 'units': units2, 'after': after2}]}
 
 
 def main_():
